@@ -167,8 +167,94 @@ def _random_trace(seed_n):
         else:
             continue
         a.update(w.step(a))
+        a['haslevel'] = True
         tr.append(a)
     return tr
+
+
+# ------------------------------------------------------------------ concurrent requests / disconnects
+
+CONC = {
+    'logging_vs_disconnect': [('c1', 'logging', 'm1', 'info'), ('c2', 'disconnect')],
+    'logging_vs_ident': [('c1', 'logging', '.', 'error'), ('c2', 'ident')],
+    'two_logging': [('c1', 'logging', 'm1', 'debug'), ('c2', 'logging', 'm1', 'off')],
+    'three': [('c1', 'logging', 'm2', 'info'), ('c2', 'disconnect'), ('c3', 'logging', '.', 'warning')],
+}
+
+
+def _conc_run(name, strategy, line_level=True):
+    """the requests of different connections run in different threads (interface threads); a disconnect is
+    handled outside the dispatcher lock, exactly as RequestHandler.finish does"""
+    from .. import detsched as ds
+    boot()
+    import frappy.protocol.dispatcher as dp
+    s = ds.Scheduler(strategy, max_steps=20000,
+                     trace_files=('frappy/logging.py', 'frappy/protocol/dispatcher.py') if line_level else ())
+    tr = []
+    with ds.Patch(dp):
+        w = World(['c1', 'c2', 'c3'])
+        for c in ('c2', 'c3'):      # sequential prologue: c2 and c3 listen to everything
+            a = {'ev': 'logging', 'conn': c, 'target': '.', 'lvl': 'debug'}
+            a.update(w.step(a))
+            tr.append(a)
+        done = []
+
+        def actor(op):
+            if op[1] == 'logging':
+                a = {'ev': 'logging', 'conn': op[0], 'target': op[2], 'lvl': op[3]}
+                try:
+                    rep = w.dispatcher.handle_request(w.conns[op[0]], ('logging', op[2], op[3]))
+                    a['ok'] = rep[0] == 'logging'
+                except ds.SchedAbort:
+                    raise
+                except Exception:
+                    a['ok'] = False
+            elif op[1] == 'ident':
+                a = {'ev': 'ident', 'conn': op[0]}
+                w.dispatcher.handle_request(w.conns[op[0]], ('*IDN?', None, None))
+            else:
+                a = {'ev': 'disconnect', 'conn': op[0]}
+                w.dispatcher.remove_connection(w.conns[op[0]])
+            done.append(a)       # completion order = one valid serialisation (the operations commute)
+        for k, op in enumerate(CONC[name]):
+            s.spawn(f't{k}', actor, op)
+        s.run()
+        exc = {n: repr(t.exc) for n, t in s.threads.items() if t.exc is not None}
+        table = w.level_table()
+        for a in done:
+            a['level'] = None
+            tr.append(a)
+        for m in MODS:              # epilogue: what does everybody receive now?
+            for lvl in ('debug', 'info', 'error'):
+                a = {'ev': 'emit', 'mod': m, 'lvl': lvl}
+                a.update(w.step(a))
+                tr.append(a)
+    # the level table is observed once, after the concurrent phase: attach it to the last concurrent event
+    k = 2 + len(done) - 1
+    for i, a in enumerate(tr):
+        a['haslevel'] = True
+        if a.get('level') is None:
+            a['level'] = table
+            a['haslevel'] = i == k
+    return tr, [c for _, c in s.choices], list(s.choices), exc, s.deadlock or s.livelock
+
+
+def _conc_explore(args):
+    name, mode, seed, nruns = args
+    from .. import detsched as ds
+    out = []
+    if mode == 'dfs':
+        class Run:
+            def __init__(self, r):
+                self.tr, self.flat, self.choices, self.exc, self.stuck = r
+
+        for r in ds.explore(lambda st: Run(_conc_run(name, st)), max_preemptions=2, max_runs=nruns, max_depth=400):
+            out.append((r.flat, r.tr, r.exc, r.stuck))
+    else:
+        for k in range(nruns):
+            tr, flat, _, exc, stuck = _conc_run(name, ds.RandomStrategy(seed * 7919 + k, stay=0.5 + 0.2 * (k % 3)))
+            out.append((flat, tr, exc, stuck))
+    return name, out
 
 
 # ------------------------------------------------------------------ rotation world
@@ -307,6 +393,38 @@ def run(chk):
                           {'trace': traces[i], 'failed_at': l, 'event': ev})
     chk.sample({'routing_trace_prefix': traces[0][:4]})
 
+    # 3b concurrent connections: requests in different threads, disconnect outside the dispatcher lock,
+    #    every source line of logging.py / dispatcher.py a possible preemption point
+    jobs = []
+    for name in CONC:
+        jobs.append((name, 'dfs', chk.seed, 120 if quick else 3000))
+        jobs.append((name, 'rnd', chk.seed + 1, 60 if quick else 2000))
+    ctraces, corigin, seen = [], [], set()
+    for name, out in pool_map(_conc_explore, jobs, chunksize=1):
+        for flat, tr, exc, stuck in out:
+            if (name, tuple(flat)) in seen:
+                continue
+            seen.add((name, tuple(flat)))
+            if exc or stuck:
+                chk.violation({'module': 'Logging', 'concurrent': name, 'kind': 'exception' if exc else 'stuck',
+                               'exc': sorted(exc.values())[0][:60] if exc else ''},
+                              {'conc': name, 'choices': flat, 'exceptions': exc})
+                continue
+            ctraces.append(tr)
+            corigin.append((name, flat))
+    verdicts, st, tr_ = validate_traces('Trace_Logging', ctraces, 'Trace_Logging.cfg')
+    chk.states += st
+    chk.transitions += tr_
+    for i, v in verdicts.items():
+        chk.impl_traces += 1
+        chk.case(('conc',) + (corigin[i][0], tuple(corigin[i][1])), len(set(corigin[i][1])) > 1)
+        if v is not None:
+            l = v[0]
+            ev = ctraces[i][l - 1] if 0 < l <= len(ctraces[i]) else {}
+            chk.violation({'module': 'Logging', 'concurrent': corigin[i][0], 'trace_event': ev.get('ev')},
+                          {'conc': corigin[i][0], 'choices': corigin[i][1], 'trace': ctraces[i], 'failed_at': l})
+    chk.notes['concurrent_schedules'] = len(ctraces)
+
     # 4 rotation: spec -> code cases, judged by the trace spec
     r, behs = emit_behaviours('Gen_LogRotation', 'Gen_LogRotation_quick.cfg' if quick else 'Gen_LogRotation_thorough.cfg',
                               maximal_only=False, timeout=600)
@@ -369,6 +487,10 @@ def replay(chk, rep):
         print('expected at step', d['step'], ':', d['expected'])
     elif 'case' in d:
         for e in _run_rotation(d['case']):
+            print(e)
+    elif 'conc' in d:
+        from .. import detsched as ds
+        for e in _conc_run(d['conc'], ds.GuidedStrategy(d['choices']))[0]:
             print(e)
     else:
         print(json.dumps(d, indent=1))
